@@ -182,6 +182,11 @@ func (x *ltsTrace) after(op c02Op, n int, e error, lc bgzf.Chunk, blocked bool) 
 		newIdx := len(x.f.base)
 		if e == nil || n > 0 {
 			newIdx = x.idx(lc.End.File)
+			if n > 0 && lc.End.Block == 0 && newIdx >= 1 && newIdx <= len(x.f.blen) && x.f.blen[newIdx-1] > 0xffff {
+				// the position behind the last byte of a 65536-byte block is reported as (NextBase, 0);
+				// the current block is still that block: no nextBlock call has been made
+				newIdx--
+			}
 		}
 		if newIdx < x.curIdx {
 			x.broken = fmt.Sprintf("current block moved backwards without a Seek (%d -> %d)", x.curIdx, newIdx)
